@@ -64,6 +64,7 @@ type VC struct {
 	lockComp string
 	entry    *Heap
 	recvStruct *StructVal
+	topParams  map[string]TV
 	freshRefs  map[string]bool
 }
 
@@ -221,6 +222,13 @@ func (vc *VC) assumeAllocated(st *State, v Value, t SType) {
 			return
 		}
 		vc.script.Assume(Implies(st.pc, Or(Eq(r, Zero), Select(alloc, r))))
+	case KIface:
+		// a non-nil value of static interface type I implements I
+		if t.Go != nil && !isEmptyInterface(t.Go) {
+			if x, ok := v.(Term); ok {
+				vc.script.Assume(Implies(st.pc, Or(Eq(x, Zero), vc.implementsTerm(x, t))))
+			}
+		}
 	case KSlice:
 		sv := v.(SliceVal)
 		vc.script.Assume(Implies(st.pc, Or(Eq(sv.Arr, Zero), Select(alloc, sv.Arr))))
@@ -439,7 +447,8 @@ func (vc *VC) zeroGhosts(st *State, loc Loc, t SType) {
 		return
 	}
 	pre := typeKey(t.Go) + "."
-	for k, g := range vc.w.ghosts {
+	for _, k := range sortedKeys(vc.w.ghosts) {
+		g := vc.w.ghosts[k]
 		if strings.HasPrefix(k, pre) && !strings.Contains(k[len(pre):], ".") {
 			vc.storeValue(st, Loc{vc.fieldComp(loc.Prefix, t, k[len(pre):]), loc.Idx}, g, vc.zeroValue(g))
 		}
@@ -655,8 +664,8 @@ func (vc *VC) defineValue(hint string, v Value) Value {
 			Len: vc.script.Define(hint+"#len", x.Len), Cap: vc.script.Define(hint+"#cap", x.Cap), Elem: x.Elem}
 	case StructVal:
 		out := StructVal{T: x.T, F: map[string]Value{}}
-		for k, f := range x.F {
-			out.F[k] = vc.defineValue(hint+"."+k, f)
+		for _, k := range sortedKeys(x.F) {
+			out.F[k] = vc.defineValue(hint+"."+k, x.F[k])
 		}
 		return out
 	case TupleVal:
@@ -719,4 +728,19 @@ func (vc *VC) posHint(fr *frame, in ssa.Instruction) string {
 		}
 	}
 	return kind
+}
+
+
+// execValue converts an evaluator value into an executor value (located structs are loaded).
+func (vc *VC) execValue(st *State, tv TV) Value {
+	switch v := tv.V.(type) {
+	case PtrVal:
+		if tv.T.K == KStruct {
+			return vc.loadValue(st, v.Loc, tv.T)
+		}
+		return v
+	case Term:
+		return vc.wrap(v, tv.T)
+	}
+	return tv.V
 }
